@@ -33,7 +33,7 @@ CHECKS: dict[str, tuple[str, str, str, str]] = {
         " prunes/yields accordingly, that every call chain enumerating files forwards the include flags, the"
         " VCS strategy and the subset unchanged, and that VCS readers' flags and separators agree. Necessary"
         " structural conditions decided for all paths/names; Git's own ignore answer is an external run-time"
-        " oracle and is not decided. VCS membership tests (is_ignored / is_submodule of every strategy) compare paths of the same base (units-of-measure check: query made root-relative, collected sets root-relative); the report's file list is subset_files(F) whenever F was given, even empty. Paths printed by VCS commands keep their exact spelling (no whitespace strip, no lossy decode). FileReport equality, if defined, includes the file's full path (reports are collected in a set). The argv of git's ignored-files query equals the confirmed flag set, and VCS commands inherit the caller's environment (env= must extend os.environ).",
+        " oracle and is not decided. VCS membership tests (is_ignored / is_submodule of every strategy) compare paths of the same base (units-of-measure check: query made root-relative, collected sets root-relative); the report's file list is subset_files(F) whenever F was given, even empty. Paths printed by VCS commands keep their exact spelling (no whitespace strip, no lossy decode). FileReport equality, if defined, includes the file's full path (reports are collected in a set). The argv of git's ignored-files query equals the confirmed flag set, and VCS commands inherit the caller's environment (env= must extend os.environ). is_submodule answers from the VCS's own list only (no probe of the tree).",
         "Trusted: CPython ast, re._parser, sa/relang.py, sa/tab.py, sa/fold.py. Names exclude '/', NUL, CR, LF.",
         "DESIGN.md §3 C03",
     ),
@@ -79,7 +79,7 @@ CHECKS: dict[str, tuple[str, str, str, str]] = {
         "Decides that no str.index/find result whose range includes 0 is tested by truthiness (package-wide), that"
         " which part filter_ignore_block keeps depends only on marker presence/order exactly as specified (joint"
         " decision-tree exploration; dependence on any other condition is a violation), and that every tag search"
-        " runs on the filtered text. The slice arithmetic itself (string indices for every interleaving) is not decided. Each file's window is decoded once and filtered as one text (window rule shared with C02). A filter written as ONE regular-expression substitution is decided by the shape of its pattern (START .*? (END | end of text), DOTALL, count 0, empty replacement); any other rewrite is not decided (exit 2).",
+        " runs on the filtered text. The slice arithmetic itself (string indices for every interleaving) is not decided. Each file's window is decoded once, returned with line endings folded and nothing else, and filtered as one text (window rule shared with C02). A filter written as ONE regular-expression substitution is decided by the shape of its pattern (START .*? (END | end of text), DOTALL, count 0, empty replacement); any other rewrite is not decided (exit 2).",
         "Trusted: ast, sa/tab.py, sa/fold.py, re._parser.",
         "DESIGN.md §3 C12",
     ),
@@ -180,7 +180,7 @@ CHECKS: dict[str, tuple[str, str, str, str]] = {
         " (newline=''), line endings are detected before normalisation and the same variable is the newline= of the"
         " write to the same file; that shebang extraction precedes header creation and feeds `before`; that the three"
         " text sections are chained slices of one string; that a BOM is split off before processing and written back"
-        " first. Byte-for-byte preservation of arbitrary bodies is run-time string behaviour and not decided. Every comment_at_first_character returns a prefix of its argument (its length is used as the cut offset). A first-line declaration is split off a block only when nothing but blanks precedes that block (decision table of find_and_replace_header). The header text is proven encodable before the truncating open (shared with C11-R10). The file is read strictly (no errors= mode that rewrites undecodable bytes). The line-ending detector is read as a model (presence priority list or frequency count with CRLF subtracted, over the whole text): presence alone cannot tell an LF file with a stray CR from a CR file.",
+        " first. Byte-for-byte preservation of arbitrary bodies is run-time string behaviour and not decided. Every comment_at_first_character returns a prefix of its argument (its length is used as the cut offset). A first-line declaration is split off a block only when nothing but blanks precedes that block (decision table of find_and_replace_header). The header text is proven encodable before the truncating open (shared with C11-R10). The file is read strictly (no errors= mode that rewrites undecodable bytes); questions about '\\n' are asked of the normalised text only; the operands of place_header are bound only by the finder, constants and _extract_shebang (another mechanism: not decided, exit 2). The line-ending detector is read as a model (presence priority list or frequency count with CRLF subtracted, over the whole text): presence alone cannot tell an LF file with a stray CR from a CR file.",
         "Trusted: ast, sa/tab.py.",
         "DESIGN.md §3 C08",
     ),
